@@ -14,7 +14,7 @@ CHECKS = {
         note='Trusted: Coq kernel (no axioms); extraction; the Doc dump through format_source_inspect (public pretty::Doc enum); that the converter is parametric in the unit is CHECKED per case, not proved over the converter model.',
         design='§4 C12'),
     'C13': dict(technique='Coq proofs (list/byte-offset arithmetic, structural induction on the tree) over a Gallina model of partial.rs and the utils.rs helpers, reusing the converter model + differential correspondence K6 (class, returned range, bytes) + splice oracle',
-        text='Partial proof. Proved for every tree/text: for any request a <= b whose ends are on char boundaries or past the end, clamping and trimming never fail and yield a sub-range on char boundaries holding exactly the trimmed text (C13_range_arithmetic_total); the node found covers the range, is a Markup/Expr/Pattern node of the tree on node boundaries (C13_cover_sound); the indentation lookup at a node start never fails (C13_indent_lookup_total); a successful call returns the byte range of a non-erroneous covering node containing the trimmed request (C13_result_is_covering_node); no/erroneous covering node is refused (C13_refuses_erroneous); for a schema-conforming tree (swfc, evaluated on every parsed tree) every such request is answered with text or the refusal: no Panic site of the arithmetic, the lookup or the converters is reachable and the renderer's fuel suffices (C13_range_total). NOT proved: the spliced text re-parses to an equivalent tree (parser; oracle on every case). Tie K6: format_source_range == Partial.format_range on thousands of (source, range) pairs incl. ranges past the end and erroneous sources. Repairs needed for the property to hold: 246cff8 (clamp before trim), b96d67a (indent at node start), f233c9f (first-line indentation), b3412af (item body nesting).',
+        text='Partial proof. Proved for every tree/text: for any request a <= b whose ends are on char boundaries or past the end, clamping and trimming never fail and yield a sub-range on char boundaries holding exactly the trimmed text (C13_range_arithmetic_total); the node found covers the range, is a Markup/Expr/Pattern node of the tree on node boundaries (C13_cover_sound); the indentation lookup at a node start never fails (C13_indent_lookup_total); a successful call returns the byte range of a non-erroneous covering node containing the trimmed request (C13_result_is_covering_node); no/erroneous covering node is refused (C13_refuses_erroneous); whenever the node to format conforms to the schema clause swfc (evaluated by the check in every case) every such request is answered with text or the refusal: no Panic site of the arithmetic, the lookup or the converters is reachable and the fuel of the renderer suffices (C13_range_total). NOT proved: the spliced text re-parses to an equivalent tree (parser; oracle on every case). Tie K6: format_source_range == Partial.format_range on thousands of (source, range) pairs incl. ranges past the end and erroneous sources. Repairs needed for the property to hold: 246cff8 (clamp before trim), b96d67a (indent at node start), f233c9f (first-line indentation), b3412af (item body nesting), 6f5c883 (breaks suppressed below Math), ffcf2d9 (a Parbreak is never the node to format), 92f58b0 (embedded literal keeps its parentheses).',
         note='Trusted: Coq kernel (no axioms); Rust str slicing semantics restated as split_at_byte/slice; LinkedNode offsets restated as prefix sums (A3, checked by K6).',
         design='§4 C13'),
     'C17': dict(technique="Coq proof of audit obligations over gen/StateAudit.v, REGENERATED from typstyle-core's sources on every run (translator), and of history/order independence of the library state machine over the audited state + K9 schedule testing (16 threads, shuffled orders, separate processes)",
